@@ -22,9 +22,13 @@ ASSUMPTIONS = ["values are small non-negative integers (float64 sums exact)",
 def bounds(tier):
     if tier == "quick":
         return {"dense": "values 0..5, 1..6 items, 1..7 bins", "ilp": "values 0..4, 1..5 items, 1..4 bins",
-                "named formats": "dict(str names), dict(int names), names+valueof on 1..4 items"}
+                "named formats": "dict(str names), dict(int names), names+valueof on 1..4 items",
+                "big": "values {0, 1, 2**24+1, 2**31+1, 2**32+3, 2**40+5}, 1..4 items, 1..4 bins, all partitioners and all cg configurations",
+                "long-thin": "9..15 items over {1,2}, 9..12 over {1,2,3}, 9..11 over {0,1,5} and {2,3,7}, bins {2,3,4,5,7,n,n+1}, non-sorted presentation: greedy/roundrobin/multifit/kk/cg(default switches, 3 objectives)/cbldm"}
     return {"dense": "values 0..7, 1..7 items, 1..8 bins", "ilp": "values 0..5, 1..6 items, 1..4 bins",
-            "named formats": "dict(str names), dict(int names), names+valueof on 1..5 items"}
+            "named formats": "dict(str names), dict(int names), names+valueof on 1..5 items",
+            "big": "values {0, 1, 2**24+1, 2**31+1, 2**32+3, 2**40+5}, 1..5 items, 1..4 bins, all partitioners and all cg configurations",
+            "long-thin": "9..24 items over {1,2}, 9..16 over {1,2,3}, 9..13 over {0,1,5} and {2,3,7}, bins {2,3,4,5,7,n,n+1}, non-sorted presentation: greedy/roundrobin/multifit/kk/cg(default switches, 3 objectives)/cbldm"}
 
 
 def tasks(tier):
@@ -44,6 +48,12 @@ def tasks(tier):
         ts.append(("ilp", ch, Ki, "list"))
     for ch in scopes.chunk_multisets(range(0, 3), 1, 3, 20):
         ts.append(("ilp", ch, 3, "dict_int"))
+    for ch in scopes.chunk_multisets(scopes.BIG_VALUES, 1, 4 if q else 5, 30):
+        ts.append(("big-simple", ch, 4, "list"))
+        ts.append(("big-cg", ch, 4, "list"))
+        ts.append(("big-simple", ch, 4, "dict_str"))
+    for ch in spaces.chunked(scopes.long_thin_multisets(tier), 40):
+        ts.append(("long-heur", ch, 0, "list"))
     return ts
 
 
@@ -67,16 +77,22 @@ def run_task(task):
     acc = Acc(ID, scope)
     for ms in chunk:
         n = len(ms)
-        for k in range(1, K + 1):
+        for k in (range(1, K + 1) if K else scopes.long_thin_bins(n)):
             acc.point(nontrivial=(n >= 2 and k >= 2))
             if scope.endswith("simple"):
                 cfgs = scopes.partition_algos_for(n, k, "quick" if K <= 7 else "thorough", max(ms))
             elif scope.endswith("cg"):
                 cfgs = [("cg", kw) for kw in scopes.cg_configs(all_switches=True, k=k)]
+            elif scope == "long-heur":
+                # cost bound of the harness: the searches with pruning switched off, ckk, snp, rnp, dp are exponential here
+                cfgs = [(a, {}) for a in scopes.SIMPLE_PARTITIONERS] + [("cg", {"objective": o}) for o in scopes.CG_OBJECTIVES]
+                if k == 2:
+                    cfgs.append(("cbldm", {}))
             else:
                 cfgs = [("ilp", {"objective": o}) for o in ("MinimizeDifference", "MaximizeSmallestSum")]
             for algo, kw in cfgs:
-                case = {"algo": algo, "items": list(ms), "k": k, "fmt": fmt, "out": "PartitionAndSumsTuple", "kw": kw}
+                items = list(scopes.scramble(ms)) if scope == "long-heur" else list(ms)
+                case = {"algo": algo, "items": items, "k": k, "fmt": fmt, "out": "PartitionAndSumsTuple", "kw": kw}
                 _one(acc, case)
         if ms == chunk[0]:
             acc.sample({"items": list(ms), "numbins": "1..%d" % K, "format": fmt, "scope": scope})
